@@ -313,8 +313,27 @@ class Repo:
             if sm is None:
                 continue
             self._expand_star(sm, seen)
+            # `from m import *` binds the names listed in m.__all__ when it exists (a literal list/tuple of strings,
+            # possibly extended with += / .append / .extend at module level), else every public name
+            exported = None
+            a = sm.bindings.get("__all__")
+            if a is not None and a[0] == "value" and isinstance(a[1], (ast.List, ast.Tuple)) and all(
+                    isinstance(e, ast.Constant) and isinstance(e.value, str) for e in a[1].elts):
+                exported = {e.value for e in a[1].elts}
+                for n in sm.tree.body:
+                    if isinstance(n, ast.AugAssign) and isinstance(n.target, ast.Name) and n.target.id == "__all__" \
+                            and isinstance(n.value, (ast.List, ast.Tuple)):
+                        exported |= {e.value for e in n.value.elts if isinstance(e, ast.Constant) and isinstance(e.value, str)}
+                    elif isinstance(n, ast.Expr) and isinstance(n.value, ast.Call) and isinstance(n.value.func, ast.Attribute) \
+                            and isinstance(n.value.func.value, ast.Name) and n.value.func.value.id == "__all__":
+                        for arg in n.value.args:
+                            for e in ([arg] if isinstance(arg, ast.Constant) else getattr(arg, "elts", [])):
+                                if isinstance(e, ast.Constant) and isinstance(e.value, str):
+                                    exported.add(e.value)
             for k, v in sm.bindings.items():
-                if not k.startswith("_") and k not in m.bindings:
+                if k in m.bindings:
+                    continue
+                if (exported is not None and k in exported) or (exported is None and not k.startswith("_")):
                     m.bindings[k] = v
 
     # ------------------------------------------------------------------ queries
